@@ -159,6 +159,59 @@ pub fn corpus_mutant(g: &mut Gen) -> (String, &'static str) {
     }
 }
 
+/// Templates with holes: syntactically plausible programs in which an expression from a pool of
+/// "special" expressions (`self`, `now`, placeholders, macro calls and splices, stateful calls, lambdas,
+/// blocks, records, strings, paths) stands in a position where ordinary programs put a number:
+/// parameter defaults of functions, lambdas and macros, delay sizes, array indices, schedule times,
+/// global initialisers, match scrutinees and arms, record fields, type-annotated bindings.
+/// Every (position, expression) pair is reachable; most are ill-typed, all must end in diagnostics.
+pub fn holesoup(g: &mut Gen) -> String {
+    const EXPRS: &[&str] = &[
+        "self", "self + 1.0", "now", "samplerate", "_", "_ + 1.0", "x", "y", "f", "f(1.0)", "f(x)", "f()", "g!(1.0)", "$x", "`x", "`{ self }", "mem(x)", "delay(4.0, x, 1.0)", "delay(self, x, 1.0)", "|a| a", "|a| self", "| | self",
+        "|a = self| a", "{ let q = self  q }", "{ self }", "{a = 1.0, b = self}", "{a = self, ..}", "(self, 1.0)", "[self, 1.0]", "\"s\"", "m::f", "m::f()", "1.0", "(1.0, 2.0)", "x.0", "r.a", "x |> f", "if (self) 1.0 else 2.0",
+        "match self { 0 => 1.0, _ => 2.0 }", "f@1.0", "x = 1.0", "- self", "1.0 + ", "",
+    ];
+    const TEMPLATES: &[&str] = &[
+        "fn f(x = ⟨⟩){ x }\nfn dsp(){ f() }\n",
+        "fn f(x = ⟨⟩){ x }\nfn dsp(){ f(1.0) }\n",
+        "fn f(x, y = ⟨⟩){ x + y }\nfn dsp(){ f(1.0) }\n",
+        "fn f(x: float = ⟨⟩) -> float { x }\nfn dsp(){ f({..}) }\n",
+        "fn f(x = ⟨⟩, y = ⟨⟩){ x + y }\nfn dsp(){ f({x = 1.0, ..}) }\n",
+        "fn dsp(){ let k = |a = ⟨⟩| a  k() }\n",
+        "fn dsp(){ (|a, b = ⟨⟩| a + b)(1.0) }\n",
+        "#stage(macro)\nfn g(x = ⟨⟩){ x }\n#stage(main)\nfn dsp(){ g!(1.0) }\n",
+        "#stage(macro)\nfn g(x){ `{ $x + ⟨⟩ } }\n#stage(main)\nfn dsp(){ g!(⟨⟩) }\n",
+        "fn f(x){ x }\nfn dsp(){ delay(⟨⟩, 1.0, 1.0) }\n",
+        "fn f(x){ x }\nfn dsp(){ let t = [1.0, 2.0]  t[⟨⟩] }\n",
+        "fn f(){ 0.0 }\nf@⟨⟩\nfn dsp(){ 0.0 }\n",
+        "let x = ⟨⟩\nfn dsp(){ x }\n",
+        "let (x, y) = ⟨⟩\nfn dsp(){ x }\n",
+        "let x: float = ⟨⟩\nfn f(a){ a }\nfn dsp(){ f(x) }\n",
+        "fn f(x){ x }\nfn dsp(){ match ⟨⟩ { 0 => ⟨⟩, _ => 1.0 } }\n",
+        "type T = A | B(float)\nfn f(t: T){ match t { A => ⟨⟩, B(x) => x } }\nfn dsp(){ f(B(⟨⟩)) }\n",
+        "fn f(r){ r.a }\nfn dsp(){ f({a = ⟨⟩, b = ⟨⟩}) }\n",
+        "fn f(r){ {r <- a = ⟨⟩} }\nfn dsp(){ f({a = 1.0}).a }\n",
+        "mod m { pub fn f(x = ⟨⟩){ x } }\nfn dsp(){ m::f() }\n",
+        "mod m { pub fn f(){ ⟨⟩ } }\nuse m::f\nfn dsp(){ f() }\n",
+        "fn f(x){ x }\nfn dsp() -> float { ⟨⟩ }\n",
+        "fn f(x){ ⟨⟩ }\nfn dsp(){ f(1.0) + f(2.0) }\n",
+        "fn f(x) -> (float, float) { ⟨⟩ }\nfn dsp(){ f(1.0) }\n",
+        "fn dsp(x: ⟨⟩){ x }\n",
+        "fn f(x: (float) -> float = ⟨⟩){ x(1.0) }\nfn dsp(){ f() }\n",
+    ];
+    let t = *g.pick(TEMPLATES);
+    let mut out = String::new();
+    let mut first = true;
+    for part in t.split("⟨⟩") {
+        if !first {
+            out.push_str(*g.pick(EXPRS));
+        }
+        first = false;
+        out.push_str(part);
+    }
+    out
+}
+
 /// Module-structured texts over a tiny name pool: nested `mod`s, (pub) fns, (pub) `use` of paths and
 /// wildcards, type declarations, a dsp that calls some path.  Duplicate names, re-export chains and
 /// cycles, shadowing and dangling paths are likely by construction; the texts are syntactically
@@ -203,6 +256,37 @@ pub fn modsoup(g: &mut Gen) -> String {
                 _ => out.push_str(&format!("{pad}let {} = {}\n", g.pick(NAMES), expr(g))),
             }
         }
+    }
+    if g.bool(1, 5) {
+        // alias clash template: several modules declare a type alias (or a sum type) of the same short
+        // name with different definitions and mention it unqualified; whether and how the bare name
+        // resolves must not depend on anything but the text
+        const RHS: [&str; 4] = ["float", "(float, float)", "(float, float, float)", "{p: float, q: float}"];
+        let mods: Vec<&str> = { let p = g.perm(3); p.iter().take(g.int(2, 3) as usize).map(|i| ["a", "b", "c"][*i]).collect() };
+        let mut s = String::new();
+        for m in mods.iter() {
+            s.push_str(&format!("mod {m} {{\n"));
+            for t in ["P", "Q"] {
+                if g.bool(2, 3) {
+                    s.push_str(&format!("  {}type alias {t} = {}\n", if g.bool(3, 4) { "pub " } else { "" }, g.pick(&RHS[..])));
+                }
+            }
+            if g.bool(3, 4) {
+                s.push_str(&format!("  pub fn keep(v: {}) {{ v }}\n", g.pick(&["P", "Q"][..])));
+            }
+            if g.bool(1, 3) {
+                s.push_str(&format!("  pub fn wrap(v: {}) -> ({}, float) {{ (v, 1.0) }}\n", g.pick(&["P", "Q"][..]), g.pick(&["P", "Q"][..])));
+            }
+            s.push_str("}\n");
+        }
+        if g.bool(1, 3) {
+            s.push_str(&format!("fn top(v: {}) {{ v }}\n", g.pick(&["P", "Q"][..])));
+        }
+        if g.bool(1, 4) {
+            s.push_str(&format!("use {}::{}\n", g.pick(&mods[..]), g.pick(&["P", "Q", "*"][..])));
+        }
+        s.push_str("fn dsp() { 0.0 }\n");
+        return s;
     }
     if g.bool(1, 3) {
         // clash template: several modules export overlapping names, imported by wildcard / by name in
